@@ -45,6 +45,7 @@ func checkC07(w *World, r *Report) {
 	r.Rule("R07.10", "a write succeeds only after its packets were acknowledged", 1)
 	r.Rule("R07.12", "the byte count of a write covers every chunk it queued", 1)
 	r.Rule("R07.17", "a flag raised around a region is lowered on every path out of it", 1)
+	r.Rule("R07.19", "the retransmitting poller closes the connection only on an identity-tested verdict, never on accumulated transient failures", 2)
 	r.Rule("R07.18", "every Unlock releases a mutex that is held on every path reaching it (unlock of an unlocked mutex is a fatal error)", 10)
 	r.Rule("R07.16", "every lock-protected field of the tunnel's queues and connections is written under one and the same mutex everywhere", 3)
 	r.Rule("R07.15", "mutexes of the DNS tunnel are acquired in one global order (no held-while-acquiring cycle)", 1)
@@ -65,6 +66,7 @@ func checkC07(w *World, r *Report) {
 	ruleLocksetConsistent(w, r, "R07.16", func(p string) bool { return strings.HasPrefix(p, modPath+"/internal/streams/dns") }, "a Read overlapping an Append sees a torn buffer: bytes are delivered twice or an acknowledged packet is lost")
 	ruleLockOrder(w, r, "R07.15", func(p string) bool { return strings.HasPrefix(p, modPath+"/internal/streams/dns") })
 	ruleNoReentrantLock(w, r, "R07.14", func(p string) bool { return strings.HasPrefix(p, modPath+"/internal/streams/dns") })
+	c07PollerClosesOnVerdictOnly(w, r)
 	ruleUnlockHeld(w, r, "R07.18", func(p string) bool { return strings.HasPrefix(p, modPath+"/internal/streams/dns") })
 }
 
@@ -1503,4 +1505,103 @@ func errGuardedFieldReads(w *World, r *Report, rule, sink, consequence string) {
 		sort.Strings(s.bad)
 		r.Check(len(s.bad) == 0, rule, key, s.pos, fmt.Sprintf("%d field read(s) feeding the %s, all on the Err == nil edge", s.n, sink), strings.Join(s.bad, "; "))
 	}
+}
+
+// c07PollerClosesOnVerdictOnly: R07.19 — the background poller is the only thing that retransmits a queued
+// chunk, and closing the connection drops what is queued. Inside every background loop of the client that
+// drives SendAndReceive, a close of the connection must be control-dependent on an error IDENTITY test of the
+// exchange's result — against a sentinel the server reports (BadConn ...) or against the previous round's
+// error value. Transport failures are fresh values on every round: under an identity test they never add up;
+// under a comparison of messages or causes a short outage closes the tunnel and loses accepted data.
+func c07PollerClosesOnVerdictOnly(w *World, r *Report) {
+	cdc := w.Named("internal/streams/dns", "ClientDnsConnection")
+	sar := methodOf(cdc, "SendAndReceive")
+	closeM := methodOf(cdc, "Close")
+	if cdc == nil || sar == nil || closeM == nil {
+		r.Undecided("R07.19", "anchor", "-", "anchor unresolved: ClientDnsConnection.SendAndReceive / Close")
+		return
+	}
+	closeFn := w.SSAFunc(closeM)
+	closesConn := func(c ssa.CallInstruction) bool {
+		if sCallee(c) == closeM {
+			return true
+		}
+		sc := c.Common().StaticCallee()
+		if sc == nil || !inModule(sc) || sc == closeFn {
+			return false
+		}
+		for _, g := range staticCone(sc, 2) {
+			if g == w.SSAFunc(sar) {
+				return false // the exchange itself is not a close helper
+			}
+			for _, c2 := range callsIn(g) {
+				if sCallee(c2) == closeM {
+					return true
+				}
+			}
+		}
+		return false
+	}
+	n := 0
+	for _, fn := range dnsPkgFuncs(w) {
+		// background loops: functions started with `go` (closures or named) that call SendAndReceive inside a cycle
+		var exch []*ssa.Call
+		for _, c := range callsIn(fn) {
+			if call, ok := c.(*ssa.Call); ok && sCallee(c) == sar && cycleThrough(call.Block()) != nil {
+				exch = append(exch, call)
+			}
+		}
+		if len(exch) == 0 || !startedWithGo(w, fn) {
+			continue
+		}
+		for _, c := range callsIn(fn) {
+			if _, isCall := c.(*ssa.Call); !isCall || !closesConn(c) {
+				continue
+			}
+			n++
+			key := fmt.Sprintf("close@%s#%d", ssaFuncKey(fn), n)
+			at := c.(ssa.Instruction)
+			isIdentity := func(v ssa.Value) bool {
+				b, ok := v.(*ssa.BinOp)
+				if !ok || b.Op != token.EQL || !isErrorType(b.X.Type()) || !isErrorType(b.Y.Type()) {
+					return false
+				}
+				for _, e := range exch {
+					for _, side := range []ssa.Value{b.X, b.Y} {
+						for _, root := range provenance(side, provOpts{}) {
+							if root == ssa.Value(e) {
+								return true
+							}
+						}
+					}
+				}
+				return false
+			}
+			ok := dominatedByCond(fn, at, isIdentity, true)
+			r.Check(ok, "R07.19", key, w.Pos(c.Pos()), "the close depends on an identity test of the exchange's error (a sentinel from the server, or the very same error value as the round before)",
+				"the background poller can close the connection without an identity test of the exchange's error: failures that are a fresh value every round (time-outs, refused sockets) add up to a close, and the chunk that was accepted and is waiting for retransmission is dropped — 'once the path stops losing, everything accepted arrives' no longer holds")
+		}
+	}
+	if n == 0 {
+		r.Hold("R07.19", "close:none", "-", "no background loop of the client that drives SendAndReceive closes the connection")
+	}
+}
+
+// startedWithGo: fn (or a closure nested in it is not considered) is the target of a go statement somewhere in the module.
+func startedWithGo(w *World, fn *ssa.Function) bool {
+	for g := range allModuleFuncs(w, w.SSA()) {
+		for _, c := range callsIn(g) {
+			gs, ok := c.(*ssa.Go)
+			if !ok {
+				continue
+			}
+			if gs.Call.StaticCallee() == fn {
+				return true
+			}
+			if mc, ok := gs.Call.Value.(*ssa.MakeClosure); ok && mc.Fn == ssa.Value(fn) {
+				return true
+			}
+		}
+	}
+	return false
 }
